@@ -255,6 +255,8 @@ structure C14St where
   rinr : List (Nat × Bool) := []
   wcancelled : List Nat := []
   errsent : List (Nat × Nat) := []         -- WaitExited call ↦ error sent on its error channel
+  ctxPend : List Nat := []                 -- SetContext / ClearContext calls in flight
+  ctxAmb : Bool := false                   -- the latest SetContext invocation overlapped another one: `lastCtx` need not be the container's context
 deriving Repr
 
 def removeOne (l : List (Option Nat)) (e : Option Nat) : Option (List (Option Nat)) :=
@@ -284,7 +286,8 @@ def monC14 : ObsMonitor Obs C14St where
       else some ms
     -- the exit is known to the container once its final section reports it (backoff call, first exit callback)
     | .bo .dur => some { ms with lastExit := none, needCause := false,
-                                 retryDue := ms.pendMut.isEmpty && ms.lastCtx != 0 && !ms.croots.contains ms.lastCtx }
+                                 retryDue := ms.pendMut.isEmpty && ms.lastCtx != 0 && !ms.croots.contains ms.lastCtx &&
+                                   !ms.ctxAmb }
     | .bo .stop => some { ms with lastExit := none, needCause := ms.needCause || (match ms.lastExit with
                                                                                    | some (some _) => true
                                                                                    | _ => false) }
@@ -307,13 +310,15 @@ def monC14 : ObsMonitor Obs C14St where
       (match op with
        | .restart => some { ms with needCause := false, needS := false, retryDue := false }
        | .setContext c r =>
+         -- (when SetContext calls overlap, their critical sections may run in either order)
          some { ms with lastCtx := c, needCause := if r then false else ms.needCause,
-                        retryDue := if r || c == 0 then false else ms.retryDue }
+                        retryDue := if r || c == 0 || !ms.ctxPend.isEmpty then false else ms.retryDue,
+                        ctxAmb := !ms.ctxPend.isEmpty, ctxPend := a :: ms.ctxPend }
        | .waitExited r => some { ms with doomedAt := (a, ms.doomed) :: ms.doomedAt, rinr := (a, r) :: ms.rinr }
        | .getState => some ms
        | _ => some { ms with needCause := false, needS := false, retryDue := false })
     | .ret a r =>
-      let ms := { ms with pendMut := ms.pendMut.filter (· != a) }
+      let ms := { ms with pendMut := ms.pendMut.filter (· != a), ctxPend := ms.ctxPend.filter (· != a) }
       (match r with
        | .wx e =>
          let dm := lookupSnap ms.doomedAt a
@@ -465,6 +470,39 @@ def monC14ha : ObsMonitor Obs C14haSt where
       if op.quiet then some ms else
       some { ms with running := ms.running.map (fun p => (p.1, true)), pendMut := a :: ms.pendMut }
     | .ret a _ => some { ms with pendMut := ms.pendMut.filter (· != a) }
+    | _ => some ms
+
+/-! ## C14cb — the exit-callback clause of `monC14` alone -/
+
+structure C14cbSt where
+  cfg : Cfg := {}
+  unreported : List (Option Nat) := []     -- results not yet matched by an exit-callback group
+  cbNext : Nat := 0
+  cbErr : Option Nat := none
+deriving Repr
+
+/-- exit-callback clause of `monC14` alone: the exit callbacks are called in groups — callback 0, 1, …, ncb-1, all
+with the same error —, a group is complete at every quiescence line, and the error of a group is the result of an
+instance that returned and has not been reported yet (or context.Canceled: an instance that was cancelled before
+it entered). Proved to accept every model trace (`Props.C14cb_obs`). -/
+def monC14cb : ObsMonitor Obs C14cbSt where
+  init := {}
+  step := fun ms o =>
+    match o with
+    | .cfg c => some { ms with cfg := c }
+    | .cbout _ e => some { ms with unreported := e :: ms.unreported }
+    | .exitcb j e =>
+      if j = 0 then
+        if ms.cbNext != 0 then none
+        else
+          let next := if ms.cfg.ncb ≤ 1 then 0 else 1
+          (match removeOne ms.unreported e with
+           | some l => some { ms with cbNext := next, cbErr := e, unreported := l }
+           | none => if e == some 0 then some { ms with cbNext := next, cbErr := e } else none)
+      else if j == ms.cbNext && e == ms.cbErr then
+        some { ms with cbNext := if j + 1 ≥ ms.cfg.ncb then 0 else j + 1 }
+      else none
+    | .quiesce _ _ _ => if ms.cbNext != 0 then none else some ms
     | _ => some ms
 
 /-! ## C14w — the WaitExited clause of `monC14` alone -/
